@@ -54,6 +54,13 @@ type Contracts struct {
 	Immutable map[string]bool
 	// Folds: finite-map sums  fold name(k K, v V) = weight  (weights must be non-negative)
 	Folds map[string]*Fold
+	// SpecFns: declared uninterpreted spec functions: name -> (argument sorts, result sort)
+	SpecFns map[string]*SpecFn
+}
+
+type SpecFn struct {
+	Args []string
+	Res  string
 }
 
 // Fold is a sum over the entries of a finite map, axiomatised by ground instances at every map
@@ -211,7 +218,7 @@ func parseClause(text string) (Clause, error) {
 // ParseContracts reads every "//@" line of the given files (name -> text). Keys are fully
 // qualified: pkg.Func, pkg.Type.Method (pkg = last import path element; lib/go is "lib").
 func ParseContracts(files map[string]string) (*Contracts, error) {
-	cs := &Contracts{Funcs: map[string]*Contract{}, Containers: map[string]string{}, Preds: map[string]*Pred{}, TypeInvs: map[string]Clause{}, Immutable: map[string]bool{}, Folds: map[string]*Fold{}}
+	cs := &Contracts{Funcs: map[string]*Contract{}, Containers: map[string]string{}, Preds: map[string]*Pred{}, TypeInvs: map[string]Clause{}, Immutable: map[string]bool{}, Folds: map[string]*Fold{}, SpecFns: map[string]*SpecFn{}}
 	var names []string
 	for n := range files {
 		names = append(names, n)
@@ -249,6 +256,20 @@ func ParseContracts(files map[string]string) (*Contracts, error) {
 				cs.Funcs[key] = cur
 				cs.Order = append(cs.Order, key)
 				curGuard = nil
+			case "specfn":
+				// specfn fmtuint(Int, Int) Str
+				lp, rp := strings.Index(rest, "("), strings.Index(rest, ")")
+				if lp < 0 || rp < lp {
+					return nil, fail(fmt.Errorf("bad specfn"))
+				}
+				sf := &SpecFn{Res: strings.TrimSpace(rest[rp+1:])}
+				for _, a := range strings.Split(rest[lp+1:rp], ",") {
+					if a = strings.TrimSpace(a); a != "" {
+						sf.Args = append(sf.Args, a)
+					}
+				}
+				cs.SpecFns[strings.TrimSpace(rest[:lp])] = sf
+				cur, curGuard = nil, nil
 			case "fold":
 				// fold hsum(k string, v string) = 8 + len(k) + len(v)
 				eqi := strings.Index(rest, "=")
